@@ -274,8 +274,9 @@ fn rayon_case(rng: &mut Rng) -> (String, String) {
     use rayon::prelude::*;
     let n = *rng.pick(&[0usize, 1, 2, 3, 7, 64, 100, 1000, 4097]);
     let min_len = *rng.pick(&[1usize, 2, 16, 5000]);
-    let mode = rng.below(4);
-    let case = format!("RAYON n={n} min_len={min_len} mode={mode}");
+    let mode = rng.below(7);
+    let target = if n == 0 { 0 } else { rng.below(n as u64) as usize };
+    let case = format!("RAYON n={n} min_len={min_len} mode={mode} target={target}");
     let pb = ProgressBar::with_draw_target(Some(n as u64), ProgressDrawTarget::hidden());
     let v: Vec<usize> = (0..n).collect();
     let mut verdict = String::from("ok");
@@ -285,7 +286,11 @@ fn rayon_case(rng: &mut Rng) -> (String, String) {
         0 => v.par_iter().with_min_len(min_len).progress_with(pb.clone()).inspect(|x| see(x)).count(),
         1 => v.par_iter().with_min_len(min_len).progress_with(pb.clone()).enumerate().map(|(_, x)| { see(x); 1usize }).sum(),
         2 => v.par_iter().with_min_len(min_len).progress_with(pb.clone()).zip(v.par_iter()).map(|(x, _)| { see(x); 1usize }).sum(),
-        _ => v.par_iter().filter(|x| **x % 3 != 1).progress_with(pb.clone()).inspect(|x| see(x)).count(),
+        3 => v.par_iter().filter(|x| **x % 3 != 1).progress_with(pb.clone()).inspect(|x| see(x)).count(),
+        // short-circuiting consumers stop in the middle of a split: the position is the number of items handed on
+        4 => { let seen = std::sync::atomic::AtomicUsize::new(0); let _ = v.par_iter().with_min_len(min_len).progress_with(pb.clone()).map(|x| { seen.fetch_add(1, std::sync::atomic::Ordering::SeqCst); see(x); x }).find_first(|x| **x == target); seen.into_inner() }
+        5 => { let seen = std::sync::atomic::AtomicUsize::new(0); let _ = v.par_iter().with_min_len(min_len).progress_with(pb.clone()).map(|x| { seen.fetch_add(1, std::sync::atomic::Ordering::SeqCst); see(x); x }).any(|x| *x == target); seen.into_inner() }
+        _ => { let seen = std::sync::atomic::AtomicUsize::new(0); let _ = v.par_iter().with_min_len(min_len).progress_with(pb.clone()).map(|x| { seen.fetch_add(1, std::sync::atomic::Ordering::SeqCst); see(x); x }).try_for_each(|x| if *x == target { Err(()) } else { Ok(()) }); seen.into_inner() }
     };
     let max_seen = max_seen.load(std::sync::atomic::Ordering::Relaxed);
     let expect = consumed as u64;
